@@ -254,9 +254,12 @@ pub fn gen_case(r: &mut Rng) -> FxCase {
                         2 => DateSpec::NonObj,
                         _ => DateSpec::Good(j),
                     };
-                    let rf = |r: &mut Rng| match r.below(4) {
+                    let rf = |r: &mut Rng| match r.below(6) {
                         0 => Field::Absent,
                         1 => Field::Bad(r.below(6) as u8),
+                        // an observation of zero (or below) must be skipped like any unusable record
+                        2 => Field::Val(Decimal::ZERO),
+                        3 if r.chance(30) => Field::Val(Decimal::new(-r.range(1, 15000), 4)),
                         _ => Field::Val(Decimal::new(r.range(6500, 15000), 4)),
                     };
                     let rec = ObsRec { date, noon: rf(r), daily: rf(r) };
